@@ -74,6 +74,20 @@ func goEnv() []string {
 // reach), the check ends - with exit 2, never with a verdict.
 var procBackstop = 40 * time.Minute
 
+// runBounded is run with a limit of its own; a child that exceeds it is stopped
+// and reported as timedOut instead of ending the check.
+func runBounded(limit time.Duration, dir string, name string, args ...string) (out string, err error, timedOut bool) {
+	ctx, cancel := context.WithTimeout(context.Background(), limit)
+	defer cancel()
+	cmd := exec.CommandContext(ctx, name, args...)
+	cmd.Dir = dir
+	var buf bytes.Buffer
+	cmd.Stdout = &buf
+	cmd.Stderr = &buf
+	err = cmd.Run()
+	return buf.String(), err, ctx.Err() != nil
+}
+
 func run(dir string, env []string, name string, args ...string) (string, error) {
 	ctx, cancel := context.WithTimeout(context.Background(), procBackstop)
 	defer cancel()
